@@ -21,7 +21,7 @@ CONSTANTS Period,      \* housekeeping period              1000
           Batch,       \* largest batch                      32
           RejoinMs,    \* reconnect bound after a repair  30000
           MaxL,
-          Check        \* which properties' clauses are asserted: a subset of {"C01", "C06", "C07", "C08", "C09", "C14"}
+          Check        \* which properties' clauses are asserted: a subset of {"C01", "C04", "C06", "C07", "C08", "C09", "C14", "C20"}
                        \* (the observer's own state always advances; each check names its property)
 
 Rec == ndJsonDeserialize(IOEnv.TRACE)
@@ -67,6 +67,10 @@ RxOf(r, l)     == SelectSeq(r.rx, LAMBDA x : x.l = l)
 Fs(r, l)     == FramesOf(r, l)
 NewP(r, l)   == IF Fs(r, l) = <<>> THEN port[l] ELSE Fs(r, l)[Len(Fs(r, l))].port
 Torn(r, l)   == port[l] # 0 /\ \E j \in 1..Len(Fs(r, l)) : Fs(r, l)[j].port # port[l]
+(* the sockets of link l that may carry unique copies in step r: the one REG3 has reached (still in place when the
+   step began), and the one REG3 reaches in this very step *)
+OkPorts(r, l) == (IF conn[l] # -1 THEN {port[l]} ELSE {})
+                 \cup {r.rx[j].port : j \in {q \in 1..Len(r.rx) : r.rx[q].l = l /\ r.rx[q].cls = "reg3"}}
 
 Fresh(r) ==
     /\ n' = r.n /\ timeout' = r.timeout /\ profile' = r.profile
@@ -91,7 +95,13 @@ WireStep(r, acc, f) ==
                           !.routed = @ + 1,
                           \* per-link arrival order; on time if the session was established when it was accepted
                           !.ok = @ /\ x.k > acc.h[f.l] /\ f.len = x.len
-                                   /\ (x.must => r.t - r.d - x.t <= FlushMs)]
+                                   /\ (x.must => r.t - r.d - x.t <= FlushMs),
+                          \* C04: the unique copy of a datagram accepted in an established session leaves from a
+                          \* socket that has completed registration (REG3 reached it) and whose link had been heard
+                          \* from within the configured timeout when the datagram was accepted
+                          !.elig = @ /\ (x.must =>
+                                           /\ f.port \in OkPorts(r, f.l)
+                                           /\ ~(heard[f.l] # -1 /\ x.t - heard[f.l] >= timeout))]
          ELSE \* nothing outstanding has these bytes: only an identical copy of a datagram that just left on
               \* ANOTHER link (the probe trickle on a stall-gated link) is allowed
               [acc EXCEPT !.dups = @ + 1,
@@ -104,7 +114,8 @@ Outst0(r) == IF r.ev = "Client" /\ r.sent
              THEN outst \cup {[k |-> r.k, dig |-> r.dig, t |-> r.t, len |-> r.plen, must |-> est /\ Usable(r.t)]}
              ELSE outst
 Wire(r) == FoldLeft(LAMBDA acc, f : WireStep(r, acc, f),
-                    [o |-> Outst0(r), h |-> hi, sent |-> recent, routed |-> routed, dups |-> dups, ok |-> TRUE],
+                    [o |-> Outst0(r), h |-> hi, sent |-> recent, routed |-> routed, dups |-> dups, ok |-> TRUE,
+                     elig |-> TRUE],
                     r.wire)
 
 Uplink(r) ==
@@ -115,6 +126,10 @@ Uplink(r) ==
         o1 == IF \E l \in 1..n : Torn(r, l) \/ Fail1[l] THEN {[x EXCEPT !.must = FALSE] : x \in w.o} ELSE w.o
     IN /\ outst' = o1 /\ hi' = w.h /\ routed' = w.routed /\ dups' = w.dups
        /\ recent' = {s \in w.sent : r.t - s.t <= 100}
+       /\ "C04" \in Check => w.elig
+       \* C20 (publish never blocks the loop): with subscribers that never read, nothing accepted waits longer than a
+       \* flush tick -- a loop parked in a publish flushes nothing
+       /\ "C20" \in Check => \A x \in o1 : x.must => r.t - x.t <= FlushMs
        /\ "C01" \in Check =>
             /\ w.ok
             \* nothing accepted in an established session waits longer than one flush tick, or behind more than
@@ -157,6 +172,11 @@ LinkChecks(r, l) ==
               /\ downLo[l] # -1 => r.t - downLo[l] >= (IF everUp[l] THEN 5000 ELSE 1000)
          \* once the path delivers again the link is connected again in time
          /\ (Rep1(r, l) # -1) => r.t - Rep1(r, l) <= RejoinMs + timeout + Period + r.d
+    \* C20: ... and the housekeeping arm keeps coming round (keepalives keep their cadence)
+    /\ "C20" \in Check =>
+         ((Conn1(r, l) # -1 /\ KaT1(r, l) # -1 /\ Heard1(r, l) # -1 /\ r.t - Heard1(r, l) < timeout
+               /\ ~failing[l] /\ ~(r.ev = "SendFail" /\ r.l = l))
+                => r.t - KaT1(r, l) <= 2 * Period + r.d)
     /\ "C14" \in Check =>
          \* every keepalive is a 38-byte extended frame stamped with its send time
          /\ \A j \in 1..Len(Kas(r, l)) : LET k == Kas(r, l)[j] IN
